@@ -193,6 +193,22 @@ def accessor(ctx, alphabet):
                 j = int(np.nonzero((got != exp).any(axis=1))[0][0])
                 ctx.violation(sub, {"order": list(order), "backend": backend, "x": Xp[j].tolist()}, {"kind": "acc"},
                               f"whitint [{order},{backend}] pixel {Xp[j].tolist()} -> {got[j].tolist()}, kernel gives {exp[j].tolist()}")
+    # several labelings (and several templates) of ONE lazy cube evaluated in one graph: each result is its own
+    import dask
+    lazy = xr.DataArray(Xp.reshape(-1, 8, nobs), dims=("y", "x", "time"), coords={"time": time}).chunk({"y": 5, "x": 3, "time": -1})
+    tf = np.asarray(tmpl, dtype=np.float64)
+    requests = [(labels, tf), (np.array([1, 1, 2, 2, 3, 3, 4, 4], dtype=np.int32), tf), (np.array([9, 9, 9, 9, 9, 9, 9, 9], dtype=np.int32), tf),
+                (np.array([5, 5, 5, 5, 6, 6, 6, 6], dtype=np.int32), tf), (labels, np.array([1, 0, 1, 0, 0, 1, 0, 1], dtype=np.float64))]
+    results = dask.compute(*[lazy.hdc.whit.whitint(l, t) for l, t in requests])
+    for k, ((l, t), r) in enumerate(zip(requests, results)):
+        nl = len(set(l.tolist()))
+        e = np.asarray(o.tinterpolate(Xp, t.copy(), l.copy(), np.zeros(nl, "u1")))
+        g = np.asarray(r.transpose("y", "x", "newtime").values).reshape(-1, r.sizes["newtime"])
+        ctx.count(sub, evaluations=N, nontrivial=N)
+        if g.shape != e.shape or not np.array_equal(g, e):
+            ctx.violation(sub, {"what": "joint graph", "request": k, "labels": l.tolist(), "template": t.tolist()}, {"kind": "acc"},
+                          f"whitint(labels={l.tolist()}, template={t.astype(int).tolist()}) computed together with {len(requests) - 1} other requests on the same lazy cube "
+                          f"(dask.compute) has shape {g.shape} / values different from the kernel's result of shape {e.shape}")
     # non-int16 input must be refused
     try:
         xr.DataArray(Xp.reshape(-1, 8, nobs).astype("float32"), dims=("y", "x", "time"), coords={"time": time}).hdc.whit.whitint(labels, np.asarray(tmpl, float))
